@@ -189,7 +189,7 @@ fn combos(tier: Tier) -> Vec<Combo> {
 }
 
 /// Ill-formed sequences: (description, units before, bad units, units after)
-fn ill_formed16() -> Vec<(String, Vec<u16>)> {
+pub fn ill_formed16() -> Vec<(String, Vec<u16>)> {
     let mut out = vec![];
     for lone in [0xdc00u16, 0xdfff, 0xdd55] {
         out.push((format!("lone trail {:04x}", lone), vec![lone]));
@@ -205,7 +205,7 @@ fn ill_formed16() -> Vec<(String, Vec<u16>)> {
     out
 }
 
-fn ill_formed32() -> Vec<(String, Vec<u32>)> {
+pub fn ill_formed32() -> Vec<(String, Vec<u32>)> {
     let mut out = vec![];
     for u in [0xd800u32, 0xdbff, 0xdc00, 0xdfff, 0x110000, 0x110001, 0x7fffffff, 0xffffffff, 0x80000000, 0x00e00000, 0xfffe0000] {
         out.push((format!("invalid scalar {:x}", u), vec![u]));
@@ -581,6 +581,9 @@ impl Check for C07 {
                                 }
                                 let (cap, inner) = [(8192, Sched::Full), (1, Sched::Fixed(1)), (3, Sched::Fixed(2))][si % 3].clone();
                                 let cj = json!({"unit": "illformed", "enc": enc, "bytes": hex(&bytes), "name": name, "sizes": sizes, "cap": cap, "inner": inner.to_json()});
+                                if rec.tracing() {
+                                    rec.trace_case(|| cj.clone());
+                                }
                                 rec.count(Some(hash_of(&cj.to_string())));
                                 rec.class(if enc.starts_with("utf-16") { "illformed:utf-16" } else { "illformed:utf-32" });
                                 if let Err(m) = check_encoder_case(&bytes, enc, &inner, cap, sizes, &name) {
